@@ -441,6 +441,8 @@ MPI_JOBS = [
     S("h_mpi@64", mpi(0, 2, P=2, n=1, tc=1, fk=1), MPI_EQ),
     S("h_mpi", mpi(0, 0, P=2, n=2, tc=2, dist=1, fk=1), MPI_EQ),
     S("h_mpi", mpi(0, 0, P=2, n=1, tc=2, dist=1, dist2=1, fk=1), MPI_EQ),     # two distributions (only the first is filled)
+    S("h_mpi", mpi(0, 2, P=2, n=1, tc=1, fk=1, d=1, md=2), MPI_EQ),     # the map produces more / fewer coordinates than it consumes random numbers
+    S("h_mpi", mpi(0, 2, P=2, n=1, tc=1, fk=1, d=2, md=1), MPI_EQ),
     S("h_mpi", mpi(0, 1, P=2, n=1, tc=2, dist=1, dist2=1, fk=1), MPI_EQ),
     S("h_mpi", mpi(0, 1, P=2, n=2, tc=0, fk=1), MPI_EQ),
     S("h_mpi", mpi(0, 1, P=3, n=1, tc=2, fk=1), MPI_EQ),
@@ -676,3 +678,5 @@ PLAN["C19"]["jobs"] = PLAN["C19"]["jobs"] + only(ROLLBACK_JOBS, lambda j: j["cfg
                                                   and "quick" in j["tiers"] and not j["cfg"].get("other"))
 OBJECT_P = [S("h_driver", drv(11, 0), ["object.rollback_beyond_the_last_iteration_of_an_empty"])]
 PLAN["C15"]["jobs"] = PLAN["C15"]["jobs"] + OBJECT_P
+
+PLAN["C13"]["jobs"] = PLAN["C13"]["jobs"] + [S("h_helpers", dict(ob=3, m=2, nd=2), ["distributions.every_distribution_keeps"])]
